@@ -51,6 +51,8 @@ var hostileNames = []taggedArg{
 	{"a b", []string{"name:has-space"}},
 	{"x\ny", []string{"name:has-newline", "ref-name-hostile"}},
 	{"t\tu", []string{"name:has-tab"}},
+	{"refs/heads/main", []string{"name:full-ref", "ref-name-hostile"}},
+	{"heads/main", []string{"name:full-ref", "ref-name-hostile"}},
 }
 
 func stateTags(a *Abs) []string {
@@ -121,6 +123,12 @@ func c03Steps(full bool) func(n *Node) []Step {
 			add(Run("switch", nm.v), nm.tags...)
 			add(Run("switch", "-c", nm.v), nm.tags...)
 			add(Run("branch", "-r", nm.v), nm.tags...)
+			add(Run("branch", "-d", nm.v), nm.tags...)
+		}
+		// reset takes journal positions only: an object id (of any kind) in their place is refused
+		for _, id := range ids {
+			add(Run("reset", "--soft", id.v), id.tags...)
+			add(Run("reset", "--hard", id.v), id.tags...)
 		}
 		add(Run("switch", "main"))
 		add(Run("switch", "b"))
